@@ -100,10 +100,10 @@ theorem MInv.of_kept {off : Bool} {ext : Nat → Nat} {m m' : Mgr} (h : MInv off
     (hr : RefExact m' ext) : MInv off ext m' :=
   ⟨k.inv, h.order.congr_auto k.frame.vars k.frame.l2v, hr, by rw [k.frame.ctx]; exact h.ctx,
    by rw [k.frame.sched]; exact h.sched, by rw [k.frame.roots]; exact h.roots,
-   fun ho => by rw [k.frame.lastLen]; exact h.mode ho⟩
+   h.mode.transfer k.frame.lastLen (by rw [Mgr.nvars, Mgr.nvars, k.ext.nvars]; exact Nat.le_refl _)⟩
 
 theorem MInv.lite {ext : Nat → Nat} {m : Mgr} (h : MInv true ext m) : Lite ext m :=
-  h.inv.lite h.counts (h.mode rfl)
+  h.inv.lite h.counts (h.mode.1 rfl)
 
 /-- `Kept` for every state with exact counts and reordering not enabled, plus exact counts
 afterwards, is all `CoreKeepsAt true` asks for -/
@@ -112,7 +112,7 @@ theorem keepsAtOff_of {α : Type} {op : M α} {m : Mgr}
     (hl : ∀ ext, Lite ext m → RefExact (op m).2 ext) : CoreKeepsAt true m op := by
   intro ext hm r m' he
   have h2 : (op m).2 = m' := by rw [he]
-  have k := hk ext hm.inv hm.counts (hm.mode rfl)
+  have k := hk ext hm.inv hm.counts (hm.mode.1 rfl)
   have r' := hl ext hm.lite
   rw [h2] at k r'
   exact ⟨hm.of_kept k r', heldExt_of_kept hm.inv k ext⟩
@@ -127,7 +127,7 @@ structure MInvC (ext : Nat → Nat) (m : Mgr) : Prop where
   off : m.lastLen = none
 
 theorem MInv.toC {ext : Nat → Nat} {m : Mgr} (h : MInv true ext m) : MInvC ext m :=
-  ⟨h.inv, h.order, h.counts, h.sched, h.roots, h.mode rfl⟩
+  ⟨h.inv, h.order, h.counts, h.sched, h.roots, h.mode.1 rfl⟩
 
 /-! ### the decorated operations, ARBITRARY arguments, reordering not enabled -/
 
@@ -191,7 +191,7 @@ theorem gc_keeps {off : Bool} : CoreKeeps off (collectGarbage none) := by
   cases he
   refine ⟨⟨hp.inv, hm.order.congr_auto hp.sub.vars hp.sub.l2v, hp.refExact, by rw [hp.sub.ctx]; exact hm.ctx,
     by rw [hp.sub.sched]; exact hm.sched, by rw [hp.sub.roots]; exact hm.roots,
-    fun ho => by rw [hp.sub.lastLen]; exact hm.mode ho⟩, ?_⟩
+    hm.mode.transfer hp.sub.lastLen (by simp only [Mgr.nvars, Tbl.nvars, hp.sub.vars]; exact Nat.le_refl _)⟩, ?_⟩
   intro u hu hpos
   have hmem : m'.tbl.Mem u :=
     reach_survives hp.sub hp.inv.toInvS hp.refExact hm.inv.toInvS (GcReach.root hpos)
@@ -234,12 +234,18 @@ theorem addVar_effect (m : Mgr) (ext : Nat → Nat) (hi : Inv m) (hO : OrderOK m
     (addVar name level m).2.sched = m.sched ∧ (addVar name level m).2.roots = m.roots ∧
     (addVar name level m).2.lastLen = m.lastLen ∧
     HeldExt m.tbl (addVar name level m).2.tbl ext ∧
-    (addVar name level m).1 ≠ .error .needsReordering := by
+    (addVar name level m).1 ≠ .error .needsReordering ∧
+    m.nvars ≤ (addVar name level m).2.nvars := by
   have hns : (addVar name level m).1 ≠ .error .needsReordering := addVar_ne_signal m name level
   rcases addVar_cases_auto m hO name level hg with hsame | ⟨hnew, hrun⟩
   · rw [hsame]
-    exact ⟨hi, hO, hr, rfl, rfl, rfl, rfl, HeldExt.refl _ _, hns⟩
-  · refine ⟨?_, ?_, ?_, ?_, ?_, ?_, ?_, ?_, hns⟩ <;> rw [hrun] <;> simp only
+    exact ⟨hi, hO, hr, rfl, rfl, rfl, rfl, HeldExt.refl _ _, hns, Nat.le_refl _⟩
+  · have hnv : m.nvars ≤ (addVar name level m).2.nvars := by
+      rw [hrun]
+      have := (addVar_new_spec m hi hO name hnew _ rfl).2.2.1
+      show m.tbl.nvars ≤ (addVarState m name).tbl.nvars
+      omega
+    refine ⟨?_, ?_, ?_, ?_, ?_, ?_, ?_, ?_, hns, hnv⟩ <;> rw [hrun] <;> simp only
     all_goals
       obtain ⟨hI, hO', hn, _, hmono, hden, _, _⟩ := addVar_new_spec m hi hO name hnew _ rfl
     · exact hI
@@ -267,10 +273,10 @@ theorem addVar_keepsAt {off : Bool} (m : Mgr) (name : String) (level : Option In
     (hg : ∀ l : Int, level = some l → m.tbl.vars[name]? = none → l ≤ (m.nvars : Int)) :
     CoreKeepsAt off m (addVar name level) := by
   intro ext hm r m' he
-  obtain ⟨a, b, c, d, e, f, g, h, _⟩ := addVar_effect m ext hm.inv hm.order hm.counts name level hg
-  rw [he] at a b c d e f g h
+  obtain ⟨a, b, c, d, e, f, g, h, _, hn'⟩ := addVar_effect m ext hm.inv hm.order hm.counts name level hg
+  rw [he] at a b c d e f g h hn'
   exact ⟨⟨a, b, c, by rw [d]; exact hm.ctx, by rw [e]; exact hm.sched, by rw [f]; exact hm.roots,
-    fun ho => by rw [g]; exact hm.mode ho⟩, h⟩
+    hm.mode.transfer g hn'⟩, h⟩
 
 /-! ### shutdown: no hypothesis when a collection ran after the last `Function` died -/
 
@@ -538,14 +544,15 @@ theorem Good.keeps {α : Type} {x : M α} (h : Good x) : CoreKeeps true x := by
   refine ⟨fun m ext hm r m' he => ?_⟩
   obtain ⟨a, b, _, c⟩ := h m ext hm.toC
   rw [he] at a b c
-  exact ⟨⟨a.inv, a.order, a.counts, by rw [c]; exact hm.ctx, a.sched, a.roots, fun _ => a.off⟩, b⟩
+  exact ⟨⟨a.inv, a.order, a.counts, by rw [c]; exact hm.ctx, a.sched, a.roots,
+    ⟨fun _ => a.off, fun h => nomatch h⟩⟩, b⟩
 
 /-- `BDD.cube(dvars)` for ANY names, reordering not enabled -/
 theorem cube_keepsOff (d : List (String × Bool)) : CoreKeeps true (cube d) := (cube_good d).keeps
 
 theorem addVar_good (name : String) : Good (addVar name none) := by
   intro m ext hm
-  obtain ⟨a, b, c, d, e, f, g, h, n⟩ := addVar_effect m ext hm.inv hm.order hm.counts name none
+  obtain ⟨a, b, c, d, e, f, g, h, n, _⟩ := addVar_effect m ext hm.inv hm.order hm.counts name none
     (fun l hl => nomatch hl)
   exact ⟨⟨a, b, c, by rw [e]; exact hm.sched, by rw [f]; exact hm.roots, by rw [g]; exact hm.off⟩, h, n, d⟩
 
@@ -589,11 +596,11 @@ theorem fApply_keepsOff (op : String) (hs : Nat) (ho : Option Nat) (h : Nat) :
 /-- `f <= g`: the three temporaries are released, nothing else changes -/
 theorem fLe_keepsOff (hs ho : Nat) : AKeeps0 true (fLe hs ho) :=
   fLe_keeps0 (fun u => apply_keepsOff "not" u none none)
-    (fun u v => apply_keepsOff "or" u (some v) none) hs ho
+    (fun b _ _ _ u v _ _ => (apply_keepsOff "or" u (some v) none).at b.m) hs ho
 
 theorem fLt_keepsOff (hs ho : Nat) : AKeeps0 true (fLt hs ho) :=
   fLt_keeps0 (fun u => apply_keepsOff "not" u none none)
-    (fun u v => apply_keepsOff "or" u (some v) none) hs ho
+    (fun b _ _ _ u v _ _ => (apply_keepsOff "or" u (some v) none).at b.m) hs ho
 
 /-- `collect_garbage()`: no hypothesis, in every mode -/
 theorem aCollectGarbage_keepsAll {off : Bool} (h : Nat) : AKeeps off h aCollectGarbage :=
